@@ -128,9 +128,16 @@ type Sched struct {
 	// alternative is enabled, before declaring a deadlock.
 	ForeignGrace time.Duration
 	Fails        []string // monitor failures recorded with Fail during this execution
-	prelude      bool     // see Prelude
-	draining     bool
-	watch        map[uintptr][]func(interface{})
+	// queue is the round-robin order of the default (non-preemptive) scheduler: when
+	// the running thread blocks, the first enabled thread of the queue runs. New threads
+	// join at the back. A deviation (choosing a later thread) moves the enabled threads
+	// that were skipped to the back — so delaying a thread is persistent: it runs again
+	// only when everything ahead of it is blocked (delay bounding as in Emmi, Qadeer,
+	// Rakamaric, POPL 2011). The queue order is part of the state key.
+	queue    []*Thread
+	prelude  bool // see Prelude
+	draining bool
+	watch    map[uintptr][]func(interface{})
 	// results
 	Deadlock   bool
 	Report     string
@@ -185,7 +192,13 @@ func (s *Sched) stateKey(last *Thread) uint64 {
 	if last != nil {
 		l = last.cid
 	}
-	return mix(sum, l)
+	q := uint64(7)
+	for _, t := range s.queue {
+		if !t.fin {
+			q = mix(q, t.cid)
+		}
+	}
+	return mix(sum, l, q)
 }
 
 // applyHB updates history hashes for the alternative about to execute.
@@ -336,6 +349,7 @@ func (s *Sched) spawn(site string, f func(), isMain bool) *Thread {
 	}
 	t.pending = &op{kind: opStart, site: site}
 	s.threads = append(s.threads, t)
+	s.queue = append(s.queue, t)
 	s.wg.Add(1)
 	go func() {
 		defer s.wg.Done()
@@ -514,34 +528,33 @@ func RunOnceCfg(prefix []int, prefixFP []uint64, body func(), seen map[uint64]in
 			s.Diverged = "step limit"
 			break
 		}
-		// canonical order: running thread first, then ascending id
+		// canonical order: the running thread first (non-preemptive default), then the
+		// round-robin queue
 		var order []*Thread
 		if last != nil && !last.fin {
 			order = append(order, last)
 		}
-		for _, t := range s.threads {
+		for _, t := range s.queue {
 			if t != last && !t.fin {
 				order = append(order, t)
 			}
 		}
-		// The order of the other threads is by canonical id (a function of the spawn
-		// tree), not by creation order, which may depend on foreign events in a prelude.
-		rest := order
-		if last != nil && !last.fin {
-			rest = order[1:]
-		}
-		sort.Slice(rest, func(i, j int) bool { return rest[i].cid < rest[j].cid })
 		var alts []alt
+		var enabled []*Thread // threads with at least one alternative, in canonical order
 		runnerEnabled := false
 		nRunner := 0
 		deadline := time.Time{}
 		for {
 			alts = alts[:0]
 			runnerEnabled, nRunner = false, 0
+			enabled = enabled[:0]
 			for i, t := range order {
 				a := s.alternatives(t)
 				if s.draining && !s.prelude && t == s.mainThread {
 					continue // Quiesce: the main thread waits until nothing else can run
+				}
+				if len(a) > 0 {
+					enabled = append(enabled, t)
 				}
 				if i == 0 && t == last && len(a) > 0 {
 					runnerEnabled = true
@@ -639,6 +652,7 @@ func RunOnceCfg(prefix []int, prefixFP []uint64, body func(), seen map[uint64]in
 			s.preUsed++
 		}
 		s.applyHB(a)
+		s.delay(enabled, a.t)
 		s.running = a.t
 		last = a.t
 		a.t.wake <- grant{alt: a}
@@ -763,6 +777,8 @@ func Prelude(f func()) {
 	Yield("prelude-end") // granted only once every other thread is blocked
 	s.draining = false
 	s.prelude = false
+	// thread creation order in the prelude may depend on foreign timing: canonicalise
+	sort.SliceStable(s.queue, func(i, j int) bool { return s.queue[i].cid < s.queue[j].cid })
 	Yield("explore-begin")
 }
 
@@ -789,7 +805,6 @@ func (s *Sched) notifyWatch(id uintptr, v interface{}) {
 	}
 }
 
-
 // Quiesce parks the calling main thread until no other thread can make progress.
 // The steps the other threads take meanwhile are ordinary, explored steps.
 func Quiesce() {
@@ -800,4 +815,28 @@ func Quiesce() {
 	s.draining = true
 	Yield("quiesce")
 	s.draining = false
+}
+
+// delay moves the enabled threads that were passed over in favour of chosen to the
+// back of the round-robin queue (in their relative order) and drops finished threads.
+func (s *Sched) delay(enabled []*Thread, chosen *Thread) {
+	skipped := map[*Thread]bool{}
+	for _, t := range enabled {
+		if t == chosen {
+			break
+		}
+		skipped[t] = true
+	}
+	q := s.queue[:0:0]
+	var back []*Thread
+	for _, t := range s.queue {
+		switch {
+		case t.fin:
+		case skipped[t]:
+			back = append(back, t)
+		default:
+			q = append(q, t)
+		}
+	}
+	s.queue = append(q, back...)
 }
